@@ -1,7 +1,171 @@
 import SpVerif.Model.ActiveGeom
+/-!
+# C20 — the active geometry column is honoured and survives frame operations
+
+Theorems about the specification machine `ActiveGeom` (what the frame operations must do to the pair
+"flavour, active column"); that pandas / Dask route every listed operation through this machine is what the
+correspondence check observes (DESIGN §3 C20).
+-/
 namespace SpVerif
 open ActiveGeom
+
 /-- row-level operations (selection, sorting, copying, cx, pickling, concatenation of agreeing frames, a Dask
 round trip) leave the frame's columns and its active geometry untouched -/
 theorem C20_rows_keep_active (f : Frame) : step f .rows = some f := rfl
+
+theorem mem_geomCols {f : Frame} {a : String} : a ∈ geomCols f ↔ (a, true) ∈ f.cols := by
+  unfold geomCols
+  simp only [List.mem_map, List.mem_filter]
+  constructor
+  · rintro ⟨⟨n, g⟩, ⟨hm, hg⟩, rfl⟩
+    simp only at hg
+    subst hg
+    exact hm
+  · intro h
+    exact ⟨(a, true), ⟨h, rfl⟩, rfl⟩
+
+/-- the resolution rule of the constructor always yields a frame whose active column is one of its geometry columns -/
+theorem C20_init_resolution (cols : List (String × Bool)) (e i : Option String) (f : Frame)
+    (h : init cols e i = some f) : f.cols = cols ∧ ∃ a, f.active = some a ∧ a ∈ geomCols f := by
+  unfold init at h
+  generalize hgs : (cols.filter (·.2)).map (·.1) = gs at h
+  have key : ∀ a, a ∈ gs → a ∈ geomCols ⟨cols, some a⟩ := by
+    intro a ha; unfold geomCols; simpa [hgs] using ha
+  cases gs with
+  | nil => simp at h
+  | cons first rest =>
+    simp only at h
+    cases e with
+    | some g =>
+      simp only at h
+      split at h
+      · next hc =>
+        cases h
+        exact ⟨rfl, g, rfl, key g (by simpa using hc)⟩
+      · cases h
+    | none =>
+      simp only at h
+      cases i with
+      | some g =>
+        simp only at h
+        split at h
+        · next hc =>
+          cases h
+          exact ⟨rfl, g, rfl, key g (by simpa using hc)⟩
+        · cases h
+          exact ⟨rfl, first, rfl, key first (by simp)⟩
+      | none =>
+        cases h
+        exact ⟨rfl, first, rfl, key first (by simp)⟩
+
+/-- invariant: the active column, if any, is a geometry column of the frame — preserved by every operation -/
+theorem C20_invariant (f f' : Frame) (op : Op) (hinv : Inv f) (h : step f op = some f') : Inv f' := by
+  cases op with
+  | rows => cases h; exact hinv
+  | setGeometry g =>
+    simp only [step] at h
+    split at h
+    · next hc =>
+      cases h
+      intro a ha
+      cases ha
+      simpa [geomCols] using hc
+    · cases h
+  | subset keep =>
+    simp only [step] at h
+    cases hact : f.active with
+    | none =>
+      rw [hact] at h; cases h
+      intro a ha; cases ha
+    | some a =>
+      rw [hact] at h
+      simp only at h
+      split at h
+      · next hc =>
+        cases h
+        intro b hb
+        cases hb
+        unfold geomCols
+        simpa using hc
+      · cases h
+        intro b hb; cases hb
+
+/-- an operation "keeps the active column `a`": a row-level operation, or a column subset that contains `a` -/
+def keeps (a : String) : Op → Prop
+  | .rows => True
+  | .subset keep => a ∈ keep
+  | .setGeometry _ => False
+
+def runOps : Frame → List Op → Option Frame
+  | f, [] => some f
+  | f, op :: ops => (step f op).bind (fun f' => runOps f' ops)
+
+/-- **every sequence of operations that keep the active column returns a geo frame with the same active geometry** -/
+theorem C20_preserved (a : String) (ops : List Op) (f : Frame) (hact : f.active = some a) (hinv : Inv f)
+    (hk : ∀ op ∈ ops, keeps a op) :
+    ∃ f', runOps f ops = some f' ∧ f'.active = some a ∧ isGeo f' = true := by
+  induction ops generalizing f with
+  | nil =>
+    refine ⟨f, rfl, hact, ?_⟩
+    have := hinv a hact
+    unfold isGeo
+    cases hg : geomCols f with
+    | nil => rw [hg] at this; cases this
+    | cons x xs => rfl
+  | cons op ops ih =>
+    have hop := hk op (by simp)
+    have hrest : ∀ o ∈ ops, keeps a o := fun o ho => hk o (by simp [ho])
+    cases op with
+    | rows =>
+      simp only [runOps, step, Option.bind]
+      exact ih f hact hinv hrest
+    | setGeometry g => exact absurd hop (by simp [keeps])
+    | subset keep =>
+      simp only [keeps] at hop
+      have ha := mem_geomCols.mp (hinv a hact)
+      -- the subset keeps column `a` as a geometry column
+      have hmem : (a, true) ∈ f.cols.filter (fun c => keep.contains c.1) := by
+        simp only [List.mem_filter]
+        exact ⟨ha, by simpa using hop⟩
+      have hc : ((f.cols.filter (fun c => keep.contains c.1)).filter (·.2)).map (·.1) |>.contains a := by
+        simp only [List.contains_iff_mem, List.mem_map]
+        exact ⟨(a, true), List.mem_filter.mpr ⟨hmem, rfl⟩, rfl⟩
+      have hs : step f (.subset keep) = some ⟨f.cols.filter (fun c => keep.contains c.1), some a⟩ := by
+        simp only [step, hact, hc, if_true]
+      simp only [runOps, hs, Option.bind]
+      refine ih _ rfl ?_ hrest
+      exact C20_invariant f _ (.subset keep) hinv hs
+
+/-- a result without any geometry column is a plain frame without an active geometry -/
+theorem C20_plain_without_geometry (f : Frame) (keep : List String)
+    (h : ∀ c ∈ f.cols, c.2 = true → c.1 ∉ keep) :
+    ∃ f', step f (.subset keep) = some f' ∧ isGeo f' = false ∧ f'.active = none := by
+  have hnil : ((f.cols.filter (fun c => keep.contains c.1)).filter (·.2)).map (·.1) = [] := by
+    simp only [List.map_eq_nil_iff, List.filter_eq_nil_iff, List.mem_filter]
+    rintro c ⟨hc, hk⟩ hg
+    exact h c hc (by simpa using hg) (by simpa using hk)
+  cases hact : f.active with
+  | none =>
+    refine ⟨⟨f.cols.filter (fun c => keep.contains c.1), none⟩, by simp [step, hact], ?_, rfl⟩
+    show (!(((f.cols.filter (fun c => keep.contains c.1)).filter (·.2)).map (·.1)).isEmpty) = false
+    rw [hnil]; rfl
+  | some a =>
+    refine ⟨⟨f.cols.filter (fun c => keep.contains c.1), none⟩, ?_, ?_, rfl⟩
+    · simp only [step, hact, hnil]
+      simp
+    · show (!(((f.cols.filter (fun c => keep.contains c.1)).filter (·.2)).map (·.1)).isEmpty) = false
+      rw [hnil]; rfl
+
+/-- `set_geometry` accepts exactly the geometry columns of the frame -/
+theorem C20_set_geometry_validation (f : Frame) (g : String) :
+    (step f (.setGeometry g)).isSome = (geomCols f).contains g := by
+  simp only [step]
+  split <;> simp_all
+
+/-! non-vacuity: a frame with three geometry columns, active column neither first nor called `geometry` -/
+example : ∃ f, init [("v", false), ("ln", true), ("pt", true), ("pg", true)] (some "pt") none = some f ∧
+    f.active = some "pt" ∧ Inv f := by
+  refine ⟨⟨[("v", false), ("ln", true), ("pt", true), ("pg", true)], some "pt"⟩, by decide, rfl, ?_⟩
+  intro a ha; cases ha; decide
+
 end SpVerif
